@@ -16,6 +16,9 @@
 //	p_codec name data           Decode(Encode(data)) == data; for the LZMA family the header
 //	                            carries len(data) and `xz --format=lzma -d` accepts the stream;
 //	                            for ZLIB the 256-byte header is as documented
+//	p_codec_big name len period [pos byte]
+//	                            p_codec on an extremely compressible input built in the worker:
+//	                            period repeated to len bytes, optionally one odd byte at pos
 //	p_env_xz                    ok when an xz program is on PATH (which encoder configuration ran)
 //	p_seq mode {codec data}...  a HISTORY of calls in one process, results retained and not copied:
 //	                            mode 0 = all Encodes, then all Decodes; mode 1 = Encode/Decode
@@ -219,12 +222,30 @@ func codecByName(name string) (compression.Compressor, string) {
 	return nil, ""
 }
 
-func pCodec(args []string) string {
+func pCodec(args []string) string { return codecOracle(args[0], UnH(args[1])) }
+
+// p_codec_big codec length period [pos byte]: the extremely compressible end of the
+// input space, built here from small arguments: [period] repeated to [length] bytes,
+// optionally one different byte at [pos].  Same demands as p_codec.
+func pCodecBig(args []string) string {
+	n := int(UnN(args[1]))
+	per := UnH(args[2])
+	if len(per) == 0 {
+		per = []byte{0}
+	}
+	x := bytes.Repeat(per, n/len(per)+1)[:n]
+	if len(args) >= 5 && n > 0 {
+		x[int(UnN(args[3]))%n] = byte(UnN(args[4]))
+	}
+	return codecOracle(args[0], x)
+}
+
+func codecOracle(name string, x []byte) string {
+	args := []string{name}
 	c, family := codecByName(args[0])
 	if c == nil {
 		return "skip"
 	}
-	x := UnH(args[1])
 	tag := " codec=" + args[0] + " len=" + N(uint64(len(x)))
 	e, err := c.Encode(x)
 	if err != nil {
@@ -771,6 +792,40 @@ func gen(r *Rng, tier string, emit Emit) {
 		}
 		emit("P", "p_seq", args...)
 	}
+	// 5. the extremely compressible end (ratios beyond 1000:1), built inside the worker
+	nbig := 5
+	if thorough {
+		nbig = 60
+	}
+	for _, name := range names {
+		for it := 0; it < nbig; it++ {
+			rr := r.Fork(uint64(5<<32+it) ^ uint64(len(name))<<20 ^ uint64(name[0])<<28 ^ uint64(name[len(name)-1])<<36)
+			n := rr.Pick(600<<10, 1<<20, 1<<20, 2<<20, 4<<20) + rr.Intn(4096)
+			if thorough && rr.Chance(1, 6) {
+				n = 8<<20 + rr.Intn(4096)
+			}
+			var per []byte
+			switch (it + rr.Intn(2)) % 5 {
+			case 0:
+				per = []byte{0xFF}
+			case 1:
+				per = []byte{0x00}
+			case 2:
+				per = []byte{byte(rr.Pick(0xE8, 0x55, 0x20))}
+			default:
+				per = rr.Bytes(rr.Range(2, 4))
+				if rr.Bool() {
+					per[0] = 0xE8
+				}
+			}
+			args := []string{name, N(uint64(n)), H(per)}
+			if rr.Chance(1, 2) { // one different byte at the start / middle / end
+				pos := rr.Pick(0, n/2, n-1)
+				args = append(args, N(uint64(pos)), N(uint64(per[0]^byte(1+rr.Intn(255)))))
+			}
+			emit("P", "p_codec_big", args...)
+		}
+	}
 	nq := 6
 	if thorough {
 		nq = 100
@@ -809,6 +864,7 @@ func main() {
 	Register("lzmaenc", opLzmaEnc)
 	Register("p_x86_roundtrip", pX86Roundtrip)
 	Register("p_codec", pCodec)
+	Register("p_codec_big", pCodecBig)
 	Register("p_env_xz", pEnvXZ)
 	Register("p_seq", pSeq)
 	Register("lzmaseq", opLzmaSeq)
